@@ -1,11 +1,13 @@
 mod alpide;
 mod cli;
 mod engine;
+mod fsm_model;
 mod gen;
 mod inproc;
 mod model;
 mod props;
 mod tape;
+mod truth;
 
 use engine::{RunCfg, Tier};
 use std::path::PathBuf;
@@ -75,7 +77,7 @@ fn main() {
     };
     let code = match replay {
         Some(f) => engine::replay_property(&prop, &cfg, &f),
-        None => engine::run_property(&prop, &cfg),
+        None => engine::run_property(&prop, &cfg, &props::fuzz_specs(&id)),
     };
     std::process::exit(code);
 }
